@@ -14,7 +14,9 @@ NOTHING = ("nothing",)
 
 
 def addr_array_of(P, f, call):
-    a = f.resolve(rules.strip_casts(f, call.args[0])) if call.args else None
+    if not call.args or call.args[0].get("k") != "inst":
+        return False
+    a = f.resolve(rules.resolve_local(f, rules.strip_casts(f, call.args[0])))       # also `GArray *addrs = seg->dcc_addresses; g_array_...(addrs, ...)`
     return a is not None and a.op == "load" and rules.field_path_of_ptr(P, f, a["ptr"]) == ADDRS
 
 
@@ -182,7 +184,8 @@ def run(chk, w):
             for c2 in _icmps_in(f, br.d.get("cond")):
                 a = f.resolve(rules.strip_casts(f, c2["a"]))
                 if a is not None and a.op == "load" and rules.field_path_of_ptr(P, f, a["ptr"]) == "_GArray.len":
-                    base = f.resolve(rules.strip_casts(f, f.resolve(a["ptr"])["base"])) if f.resolve(a["ptr"]) is not None and f.resolve(a["ptr"]).op == "getelementptr" else None
+                    base = f.resolve(rules.resolve_local(f, rules.strip_casts(f, f.resolve(a["ptr"])["base"]))) if f.resolve(a["ptr"]) is not None and f.resolve(a["ptr"]).op == "getelementptr" and \
+                        f.resolve(a["ptr"])["base"].get("k") == "inst" else None
                     if base is not None and base.op == "load" and rules.field_path_of_ptr(P, f, base["ptr"]) == ADDRS and rules.const_of(f, c2["b"]) == 0:
                         empty_succ = br["f"] if c2["pred"] in ("ugt", "sgt", "ne") else br["t"]
                         # only when the icmp is the branch condition itself (not one operand of && / ||)
